@@ -93,8 +93,8 @@ def extend(g, api):
           lambda: const_value(read(BBR), 'K_ROUND_TRIPS_WITHOUT_GROWTH_BEFORE_EXITING_STARTUP'))
 
     # constructors: the initial window as a function of the configured window and the initial MTU
-    def ctor_window(path, marker, field, pre=None):
-        body = strip_comments(fn_body(read(path), 'new', after=marker))
+    def ctor_window(path, marker, field, pre=None, ctor='new'):
+        body = strip_comments(fn_body(read(path), ctor, after=marker))
         m = re.findall(r'\b' + field + r'\s*:\s*([^,\n]+),', body)
         if len(m) != 1:
             raise TranslateError(f'{marker}::new: field {field} found {len(m)} times')
@@ -110,11 +110,11 @@ def extend(g, api):
            lambda: ctor_window(CUBIC, 'impl Cubic', 'window'))
     BBRPRE = (r'calculate_min_window\(current_mtu as u64\)', 'min_window_of_mtu')
     g.term('bbrInitialCwnd', 'Nat → Nat → Nat', BBR + '::Bbr::new cwnd',
-           lambda: ctor_window(BBR, 'impl Bbr', 'cwnd', BBRPRE))
+           lambda: ctor_window(BBR, 'impl Bbr', 'cwnd', BBRPRE, ctor='with_rng'))  # Bbr::new delegates to with_rng (struct literal)
     g.term('bbrInitialInitCwnd', 'Nat → Nat → Nat', BBR + '::Bbr::new init_cwnd',
-           lambda: ctor_window(BBR, 'impl Bbr', 'init_cwnd', BBRPRE))
+           lambda: ctor_window(BBR, 'impl Bbr', 'init_cwnd', BBRPRE, ctor='with_rng'))  # Bbr::new delegates to with_rng (struct literal)
     g.term('bbrInitialMinCwnd', 'Nat → Nat → Nat', BBR + '::Bbr::new min_cwnd',
-           lambda: ctor_window(BBR, 'impl Bbr', 'min_cwnd', BBRPRE))
+           lambda: ctor_window(BBR, 'impl Bbr', 'min_cwnd', BBRPRE, ctor='with_rng'))  # Bbr::new delegates to with_rng (struct literal)
 
     # on_mtu_update of the three controllers (translated bodies: new window as a function of the old one)
     def mtu_update(path, marker, window_field, rename):
